@@ -289,7 +289,7 @@ func GenPackage(r *Rng, o GenOpts) *PkgDef {
 					return
 				}
 			}
-			ins = append(ins, InSpec{Kind: kind, Name: d.Spec.Name, SetSum: d.Spec.Policy == "setsum"})
+			ins = append(ins, InSpec{Kind: kind, Name: d.Spec.Name, SetSum: d.Spec.Policy == "setsum", Float: d.Spec.VType == "float64"})
 			if d.Initial > minInit {
 				minInit = d.Initial
 			}
